@@ -12,7 +12,11 @@ class C18:
         # ids: anonymous adds (server-assigned ids), error finishes (10 s ttl), the watchdog that forgets expired jobs, restarts
         ids = narrow_cfg(tier, {"addanon", "pull", "finish", "wd"}, workers=("w1",), finish_kinds=("err",), maxjobs=3, maxpoll=1,
                          bound=16 if tier == "quick" else 20, maxrestarts=2, probe=False)
-        return X.search_phases(self.id, [("wide", cfg, cap), ("ids-deep", ids, 60 if tier == "quick" else 1500)], tier, seed, self.families,
+        # client-chosen (string) and server-assigned (integer) ids side by side, as nserve's named jobs and anonymous adds produce
+        mixed = narrow_cfg(tier, {"add", "addanon", "pull", "finish", "kill", "eof"}, workers=("w1", "w2"), finish_kinds=("ok", "err"), maxjobs=3,
+                           bound=9 if tier == "quick" else 12, maxrestarts=1)
+        return X.search_phases(self.id, [("wide", cfg, cap), ("ids-deep", ids, 60 if tier == "quick" else 1500),
+                                         ("mixed-ids", mixed, 60 if tier == "quick" else 1500)], tier, seed, self.families,
                                post_restart_only=True,
                                rule=RULE + "; the save/restore step (Main.savedb -> pickle file -> Main.loaddb in a fresh Main, all connections gone) is enabled in every quiescent state and exploration continues after it with the C16/C17 oracles armed; only violations that arise after a restart are reported here",
                                assumptions=ASSUME + ("the server is stopped between event-loop iterations (quiescent), as KeyboardInterrupt in serve_forever does",),
